@@ -40,6 +40,8 @@ Definition digs (d n : Z) : list Z := digs_aux (Z.to_nat n) d.
 (* the n low base-64 digits of d, least significant first *)
 Fixpoint digs64_aux (n : nat) (d : Z) : list Z := match n with O => [] | S m => Z.land d 63 :: digs64_aux m (Z.shiftr d 6) end.
 Definition digs64 (d n : Z) : list Z := digs64_aux (Z.to_nat n) d.
+(* items whose key is value / 64 (the values written by bursts are key*64 + goroutine), written as the values alone *)
+Definition vit (xs : list Z) : list (Z * Z) := map (fun x => (Z.shiftr x 6, x)) xs.
 Definition rP : gout := None.                                  (* the call panicked *)
 Definition rU : gout := Some RUnit.
 Definition rM : gout := Some (RVal None).                      (* miss *)
